@@ -26,7 +26,7 @@ COQ_CHECK = "M_Threads.check_case"
 OBLIGATIONS = ["callbacks_on_owner_thread", "callbacks_never_concurrent",
                "loop_callbacks_on_owner_thread", "posting_api_runs_no_callback",
                "orch_start_refuted"]
-N_QUICK, N_THOROUGH = 36, 400
+N_QUICK, N_THOROUGH = 28, 400
 N_SEARCH = 72   # size of the extra oracle search after a broken obligation/correspondence (real threaded runs are slow)
 PARALLEL = 8
 SHARD = 20
@@ -34,7 +34,8 @@ RUN_TIMEOUT = 90
 FINDING = "C21-orchestrator-start-foreign-thread"
 RULE = ("real thread-mode runs (modes: plain; poke = a foreign thread calls end_metrics / current_solution / "
         "current_global_cost / replication_metrics / stop_agents(grace 0..0.2 s) / wait_ready during the run; "
-        "timeout = run(timeout=0.6) ended by the library's Timer thread): 3-5 variables, algorithm dpop / mgm(stop_cycle 3-8) / dsa(stop_cycle), "
+        "timeout = run(timeout=0.6) ended by the library's Timer thread; half of the mgm/dsa runs are "
+        "resilient = replication dist_ucs_hostingcosts, level 1..2): 3-5 variables, algorithm dpop / mgm(stop_cycle 3-8) / dsa(stop_cycle), "
         "distribution oneagent/adhoc/random, collect mode value_change/cycle_change/period(0.01-0.05s), "
         "switch interval 1e-6..5e-3 s, random sleeps <= 0.5 ms in 5% of the callbacks; "
         "non-trivial = at least 20 recorded callbacks on at least 3 threads; distinct = distinct case JSON")
@@ -78,7 +79,11 @@ def gen(rng, n, tier):
         mode = rng.choice(["plain", "poke", "poke", "timeout"])
         if algo in ("mgm", "dsa") and mode != "plain":
             params = {}
+        # resilient: agents host a replication computation, which registers discovery callbacks on
+        # agent events (fired when agents come and go); DPOP has no footprint, so mgm / dsa only
+        resilient = algo in ("mgm", "dsa") and rng.random() < 0.5
         cases.append(dict(kind="real", mode=mode, grace=rng.choice([0.0, 0.05, 0.2]),
+                          resilient=resilient, k=rng.randint(1, 2),
                           spec=spec, algo=algo, params=params, dist=dist,
                           n_agents=nv + rng.randint(0, 1) if dist == "oneagent" else rng.randint(2, nv),
                           collect=collect, period=rng.choice([0.01, 0.02, 0.05]),
@@ -130,7 +135,8 @@ def _real(case):
     from pydcop.infrastructure.run import run_local_thread_dcop
     t0 = time.time()
     orch = run_local_thread_dcop(algo, cg, dist, dcop, rt.INFINITY, collect_moment=case["collect"],
-                                 period=case["period"] if case["collect"] == "period" else None)
+                                 period=case["period"] if case["collect"] == "period" else None,
+                                 replication="dist_ucs_hostingcosts" if case.get("resilient") else None)
     res = {}
     mode = case.get("mode", "plain")
     import threading
@@ -149,6 +155,9 @@ def _real(case):
         orch.end_metrics()
     try:
         orch.deploy_computations()
+        if case.get("resilient"):
+            orch.start_replication(case["k"])
+            orch.wait_ready()
         if mode == "poke":
             threading.Thread(target=poker, name="c21-user", daemon=True).start()
         orch.run(timeout=0.6 if mode == "timeout" else RUN_TIMEOUT)
@@ -161,6 +170,10 @@ def _real(case):
         orch.stop()
     for t in list(tt.agent_threads.values()):
         t.join(10)
+    # helper threads the runtime may have started (threading.Timer ...) must have run too
+    for t in threading.enumerate():
+        if t is not threading.current_thread() and not t.daemon:
+            t.join(3)
     res.update(_canon(tt.result()))
     return res
 
@@ -284,7 +297,8 @@ def nontrivial(case, o):
 def histogram(cases, obs):
     h = {}
     for c, o in zip(cases, obs):
-        k = "%s/%s/%s/%s" % (c["algo"], c["dist"], c["collect"], c.get("mode", "plain"))
+        k = "%s/%s/%s/%s%s" % (c["algo"], c["dist"], c["collect"], c.get("mode", "plain"),
+                               "/resilient" if c.get("resilient") else "")
         h[k] = h.get(k, 0) + 1
         if "error" in o:
             h["error/" + o["error"]] = h.get("error/" + o["error"], 0) + 1
